@@ -8,6 +8,7 @@ import (
 	"math"
 	"path"
 	"path/filepath"
+	"strings"
 
 	"reduction.dev/reduction/dkv/recovery"
 	"reduction.dev/reduction/proto/snapshotpb"
@@ -104,11 +105,27 @@ func parseDKVURI(uri string) (opID, base string, err error) {
 	return opPrefix, baseFileName, nil
 }
 
-// Create a URL safe encoding to create a path segment. Lexicographic order will
-// be descending such that later checkpoints will appear first in a file list.
+// Create a URL safe encoding to create a path segment. The base64 alphabet is
+// not in ASCII order, so the lexicographic order of segments does not follow
+// the order of the IDs; use checkpointIDFromPath to compare files.
 func pathSegment(id uint64) string {
 	reversed := math.MaxUint64 - id
 	buf := make([]byte, 8)
 	binary.BigEndian.PutUint64(buf, reversed)
 	return base64.RawURLEncoding.EncodeToString(buf)
+}
+
+// checkpointIDFromPath recovers the checkpoint ID from the path of a job
+// snapshot file named "job-<pathSegment(id)>.snapshot".
+func checkpointIDFromPath(filePath string) (id uint64, ok bool) {
+	name := strings.TrimSuffix(path.Base(filepath.ToSlash(filePath)), ".snapshot")
+	segment, ok := strings.CutPrefix(name, "job-")
+	if !ok {
+		return 0, false
+	}
+	buf, err := base64.RawURLEncoding.DecodeString(segment)
+	if err != nil || len(buf) != 8 {
+		return 0, false
+	}
+	return math.MaxUint64 - binary.BigEndian.Uint64(buf), true
 }
